@@ -118,6 +118,41 @@ theorem notIdentity_holds (α : Assign) (n : Nat) :
   · rintro ⟨u, h1, h2, h⟩
     exact ⟨u, ⟨h1, h2⟩, by rw [litHolds_neg_mlit α (Nat.le_refl 1), h]; rfl⟩
 
+/-- the clause added by the option `nontrivial`: some `u ≤ min(|V₁|, |V₂|)` is not mapped to itself -/
+theorem notIdentityClause_holds (α : Assign) (n1 n2 : Nat) :
+    Con.holds α (notIdentityClause n1 n2) = true ↔
+      ∃ u, 1 ≤ u ∧ u ≤ n1 ∧ u ≤ n2 ∧ α (mapId 1 n2 u u) = false := by
+  simp only [notIdentityClause, Con.holds, clauseHolds, List.any_map, List.any_eq_true, List.mem_filter, mem_verts,
+    Function.comp, decide_eq_true_eq]
+  constructor
+  · rintro ⟨u, ⟨hu, hu2⟩, h⟩
+    rw [litHolds_neg_mlit α (Nat.le_refl 1)] at h
+    exact ⟨u, hu.1, hu.2, hu2, by simpa using h⟩
+  · rintro ⟨u, h1, h2, h3, h⟩
+    exact ⟨u, ⟨⟨h1, h2⟩, h3⟩, by rw [litHolds_neg_mlit α (Nat.le_refl 1), h]; rfl⟩
+
+theorem graphIsomorphismOpt_consIn (G1 G2 : SimpleG) (b : Bool) :
+    ConsIn 1 (G1.n * G2.n) (graphIsomorphismOpt G1 G2 b).cons := by
+  refine (graphIsomorphism_consIn G1 G2).append ?_
+  cases b
+  · exact ConsIn.nil
+  · intro c hc l hl
+    simp only [if_true, List.mem_singleton] at hc
+    subst hc
+    simp only [notIdentityClause, Con.lits, List.mem_map, List.mem_filter, mem_verts, decide_eq_true_eq] at hl
+    obtain ⟨u, ⟨hu, hu2⟩, rfl⟩ := hl
+    have := (mlit_in (st := 1) (k := G1.n) (N := G2.n) (Nat.le_refl 1) hu.1 hu.2 hu.1 hu2).2
+    omega
+
+/-- `GraphAutomorphism(G)` adds the same clause as `GraphIsomorphism(G, G, nontrivial=True)` -/
+theorem graphAutomorphism_eq_opt (G : SimpleG) : graphAutomorphism G = graphIsomorphismOpt G G true := by
+  have : (verts G.n).filter (fun u => decide (u ≤ G.n)) = verts G.n := by
+    rw [List.filter_eq_self]
+    intro u hu
+    rw [mem_verts] at hu
+    simp [hu.2]
+  simp [graphAutomorphism, graphIsomorphismOpt, notIdentityClause, this]
+
 end G2
 end Fam
 end Cnfgen
